@@ -158,3 +158,19 @@ pub fn watched(i: usize) -> Watch {
 pub fn clear_watches() {
     NW.with(|n| n.set(0));
 }
+
+/// RAII pause: allocations made by the harness inside a seam callback are not attributed to
+/// the code under test.
+pub struct PauseGuard(bool);
+
+impl PauseGuard {
+    pub fn new() -> PauseGuard {
+        PauseGuard(pause())
+    }
+}
+
+impl Drop for PauseGuard {
+    fn drop(&mut self) {
+        resume(self.0);
+    }
+}
